@@ -6,6 +6,7 @@
 -/
 import LbzVerif.Lemmas.SchedD.Safe3
 import LbzVerif.Lemmas.SchedD.Witness
+import LbzVerif.Lemmas.SchedD.Holder2
 
 namespace LbzVerif.Props.C09.Sched
 open LbzVerif.Model.SchedD LbzVerif.Lemmas.SchedD LbzVerif.Gen
@@ -34,24 +35,9 @@ theorem output_eq_failed {c : Cfg} {s : State} (h : Reach c s) (hf : s.failed = 
   simp only [Good, hf, if_true] at g
   exact g
 
-/-- **output_eq_partial**, success side: a run that terminated (all workers
-    left the loop: `can_terminate`, nothing selectable) with `order_q` empty
-    wrote exactly the sequential output and the sequential decoding succeeds —
-    for every `n ≥ 0`, granularity, slot count, candidate set and schedule.
-
-    MISSING for the full statement: the hypothesis `s.orderQ = []` should follow
-    from `terminated`.  What IS proved: at termination `retr_q`, `emit_q`,
-    `reord_q`, `output_q`, the busy workers and the live unord_blks are all gone
-    (`Props.C11.Expand.quiescent_at_termination`).  What is missing is the
-    ownership invariant "every entry (b,i) of `order_q` still has a producer — a
-    master-capable job, an emit job or a buffer of block b with index ≥ i"; its
-    inductive form needs either uniqueness of the producer per base (scan
-    discipline: every candidate is reported once) or a successor-chain
-    invariant on `reord_q`, neither done.  The BFS driver checks it (`badout`
-    counts terminated states with a non-empty `order_q`; 0 on every explored
-    shape) and `uninit()`'s VERIF_ASSERT(empty(order_q)) checks it in the real
-    program on every traced run. -/
-theorem output_eq_partial {c : Cfg} {s : State} (h : Reach c s) (ht : terminated c s = true)
+/-- success side, given that `order_q` is empty (auxiliary; the hypothesis is
+    discharged by `terminated_order_empty` in `output_eq` below) -/
+theorem output_eq_of_order_empty {c : Cfg} {s : State} (h : Reach c s) (ht : terminated c s = true)
     (ho : s.orderQ = []) : seqRun c = (s.written, true) := by
   simp only [terminated, Bool.and_eq_true, Bool.not_eq_true'] at ht
   obtain ⟨⟨hf, hc⟩, _⟩ := ht
@@ -63,7 +49,20 @@ theorem output_eq_partial {c : Cfg} {s : State} (h : Reach c s) (ht : terminated
   have := g.main
   simpa [expect, future, ho, hpd, orderOut] using this
 
-/-- Non-vacuity of `output_eq_partial`: the F2 witness run (n = 2, four spurious
+/-- **output_eq** (full strength; every `n`, input granularity, slot count,
+    candidate set, `parseAt`/`retrieveFrom` and every interleaving): a run that
+    terminated — all workers left the loop: `can_terminate` holds and nothing
+    is selectable — handed exactly the sequential output to the sink, and the
+    sequential decoding succeeds.  With `output_eq_failed` and `seqRun_indep`:
+    result and status are those of the sequential run, whatever the
+    configuration and the schedule.  (`order_q` is empty at termination because
+    every entry keeps a producer holding a work unit or an output slot:
+    `Lemmas/SchedD/Holder2.lean: terminated_order_empty`.) -/
+theorem output_eq {c : Cfg} {s : State} (h : Reach c s) (ht : terminated c s = true) :
+    seqRun c = (s.written, true) :=
+  output_eq_of_order_empty h ht (terminated_order_empty h ht)
+
+/-- Non-vacuity of `output_eq`: the F2 witness run (n = 2, four spurious
     candidates) terminates with `order_q` empty. -/
 example : ∃ s, Reach cfgF4 s ∧ terminated cfgF4 s = true ∧ s.orderQ = [] := by
   have h : (run cfgF4 (init cfgF4) traceF2).any
